@@ -175,9 +175,21 @@ type corruption struct {
 func reseal(h *model.PHeader, g *bscGen, signer common.Address) { h.Seal(g.chainID, g.byAddr[signer]) }
 
 var c17Corruptions = []corruption{
-	{"parent-hash", func(h *model.PHeader, p *model.Parlia, g *bscGen) bool { h.ParentHash[3] ^= 1; reseal(h, g, h.Coinbase); return true }},
-	{"number+1", func(h *model.PHeader, p *model.Parlia, g *bscGen) bool { h.Number++; reseal(h, g, h.Coinbase); return true }},
-	{"number-1", func(h *model.PHeader, p *model.Parlia, g *bscGen) bool { h.Number--; reseal(h, g, h.Coinbase); return true }},
+	{"parent-hash", func(h *model.PHeader, p *model.Parlia, g *bscGen) bool {
+		h.ParentHash[3] ^= 1
+		reseal(h, g, h.Coinbase)
+		return true
+	}},
+	{"number+1", func(h *model.PHeader, p *model.Parlia, g *bscGen) bool {
+		h.Number++
+		reseal(h, g, h.Coinbase)
+		return true
+	}},
+	{"number-1", func(h *model.PHeader, p *model.Parlia, g *bscGen) bool {
+		h.Number--
+		reseal(h, g, h.Coinbase)
+		return true
+	}},
 	{"coinbase-other-validator", func(h *model.PHeader, p *model.Parlia, g *bscGen) bool {
 		s := h.Coinbase
 		for _, v := range p.Validators {
@@ -210,9 +222,21 @@ var c17Corruptions = []corruption{
 		}
 		return false
 	}},
-	{"difficulty-swapped", func(h *model.PHeader, p *model.Parlia, g *bscGen) bool { h.Difficulty = 3 - h.Difficulty; reseal(h, g, h.Coinbase); return true }},
-	{"difficulty-zero", func(h *model.PHeader, p *model.Parlia, g *bscGen) bool { h.Difficulty = 0; reseal(h, g, h.Coinbase); return true }},
-	{"difficulty-3", func(h *model.PHeader, p *model.Parlia, g *bscGen) bool { h.Difficulty = 3; reseal(h, g, h.Coinbase); return true }},
+	{"difficulty-swapped", func(h *model.PHeader, p *model.Parlia, g *bscGen) bool {
+		h.Difficulty = 3 - h.Difficulty
+		reseal(h, g, h.Coinbase)
+		return true
+	}},
+	{"difficulty-zero", func(h *model.PHeader, p *model.Parlia, g *bscGen) bool {
+		h.Difficulty = 0
+		reseal(h, g, h.Coinbase)
+		return true
+	}},
+	{"difficulty-3", func(h *model.PHeader, p *model.Parlia, g *bscGen) bool {
+		h.Difficulty = 3
+		reseal(h, g, h.Coinbase)
+		return true
+	}},
 	{"gas-limit-at-upper-bound", func(h *model.PHeader, p *model.Parlia, g *bscGen) bool {
 		h.GasLimit = p.Latest.GasLimit + p.Latest.GasLimit/256
 		reseal(h, g, h.Coinbase)
@@ -245,8 +269,16 @@ var c17Corruptions = []corruption{
 		reseal(h, g, h.Coinbase)
 		return true
 	}},
-	{"gas-used-above-limit", func(h *model.PHeader, p *model.Parlia, g *bscGen) bool { h.GasUsed = h.GasLimit + 1; reseal(h, g, h.Coinbase); return true }},
-	{"gas-limit-above-cap", func(h *model.PHeader, p *model.Parlia, g *bscGen) bool { h.GasLimit = 1 << 63; reseal(h, g, h.Coinbase); return true }},
+	{"gas-used-above-limit", func(h *model.PHeader, p *model.Parlia, g *bscGen) bool {
+		h.GasUsed = h.GasLimit + 1
+		reseal(h, g, h.Coinbase)
+		return true
+	}},
+	{"gas-limit-above-cap", func(h *model.PHeader, p *model.Parlia, g *bscGen) bool {
+		h.GasLimit = 1 << 63
+		reseal(h, g, h.Coinbase)
+		return true
+	}},
 	{"validators-on-non-epoch-block", func(h *model.PHeader, p *model.Parlia, g *bscGen) bool {
 		if h.Number%p.Epoch == 0 {
 			return false
@@ -271,12 +303,23 @@ var c17Corruptions = []corruption{
 		reseal(h, g, h.Coinbase)
 		return true
 	}},
-	{"mix-digest", func(h *model.PHeader, p *model.Parlia, g *bscGen) bool { h.MixDigest[5] = 1; reseal(h, g, h.Coinbase); return true }},
-	{"uncle-hash", func(h *model.PHeader, p *model.Parlia, g *bscGen) bool { h.UncleHash[5] ^= 1; reseal(h, g, h.Coinbase); return true }},
+	{"mix-digest", func(h *model.PHeader, p *model.Parlia, g *bscGen) bool {
+		h.MixDigest[5] = 1
+		reseal(h, g, h.Coinbase)
+		return true
+	}},
+	{"uncle-hash", func(h *model.PHeader, p *model.Parlia, g *bscGen) bool {
+		h.UncleHash[5] ^= 1
+		reseal(h, g, h.Coinbase)
+		return true
+	}},
 	{"short-extra", func(h *model.PHeader, p *model.Parlia, g *bscGen) bool { h.Extra = make([]byte, 32+10); return true }},
 	{"damaged-seal", func(h *model.PHeader, p *model.Parlia, g *bscGen) bool { h.Extra[len(h.Extra)-20] ^= 0x40; return true }},
 	{"seal-recovery-id", func(h *model.PHeader, p *model.Parlia, g *bscGen) bool { h.Extra[len(h.Extra)-1] ^= 1; return true }},
-	{"other-chain-id", func(h *model.PHeader, p *model.Parlia, g *bscGen) bool { h.Seal(g.chainID+1, g.byAddr[h.Coinbase]); return true }},
+	{"other-chain-id", func(h *model.PHeader, p *model.Parlia, g *bscGen) bool {
+		h.Seal(g.chainID+1, g.byAddr[h.Coinbase])
+		return true
+	}},
 	{"field-changed-after-sealing", func(h *model.PHeader, p *model.Parlia, g *bscGen) bool { h.Root[0] ^= 1; return true }},
 	{"out-of-turn-eligible-signer", func(h *model.PHeader, p *model.Parlia, g *bscGen) bool {
 		// a valid alternative: another eligible validator with the matching difficulty
